@@ -1,9 +1,11 @@
 package checks
 
 import (
+	"errors"
 	"fmt"
 	"sort"
 	"sync/atomic"
+	"time"
 
 	"github.com/jrhy/mast"
 	"verifharness/env"
@@ -20,6 +22,33 @@ import (
 // then up to two retries, the first again with every single failure.
 
 type c03Stats struct{ evals, failing, retries int64 }
+
+// hangGuard is a safety net, not an oracle: MakeRoot on these trees takes milliseconds;
+// if it has not returned after this long its goroutines are deadlocked (engine S detects the same
+// thing exactly, as "no enabled thread"). The stuck goroutines are abandoned.
+const hangGuard = 60 * time.Second
+
+var errHung = errors.New("MakeRoot did not return: its goroutines are deadlocked")
+
+// makeRootGuarded runs MakeRoot in a goroutine of its own.
+func makeRootGuarded(t *mast.Mast) (root *mast.Root, res world.Res) {
+	type out struct {
+		root *mast.Root
+		res  world.Res
+	}
+	ch := make(chan out, 1)
+	go func() {
+		var o out
+		o.res = guardRes(func() (err error) { o.root, err = t.MakeRoot(ctx); return })
+		ch <- o
+	}()
+	select {
+	case o := <-ch:
+		return o.root, o.res
+	case <-time.After(hangGuard):
+		return nil, world.Res{Err: errHung}
+	}
+}
 
 // reachCheck verifies that every node reachable from root is in the store under its own name.
 func reachCheck(cfg *world.Config, st *env.Store, root *mast.Root) error {
@@ -41,8 +70,7 @@ func c03State(cfg *world.Config, hist []world.Op, acc *pairAcc, st *c03Stats, ma
 		return
 	}
 	w.Store.ResetLog()
-	var root0 *mast.Root
-	r0 := guardRes(func() (err error) { root0, err = t.MakeRoot(ctx); return })
+	root0, r0 := makeRootGuarded(t)
 	atomic.AddInt64(&st.evals, 1)
 	desc0 := cfg.DescribeHist(hist)
 	if r0.Err != nil || r0.Panic != nil {
@@ -101,12 +129,15 @@ func c03State(cfg *world.Config, hist []world.Op, acc *pairAcc, st *c03Stats, ma
 				}
 				return nil
 			}
-			var root *mast.Root
-			r := guardRes(func() (err error) { root, err = t.MakeRoot(ctx); return })
+			root, r := makeRootGuarded(t)
 			atomic.AddInt64(&st.evals, 1)
 			atomic.AddInt64(&st.failing, 1)
 			desc := append(append([]string{}, desc0...), fmt.Sprintf("MakeRoot with the Store of %d of %d nodes failing", len(sub), d))
 			cls := fmt.Sprintf("writes=%s", bucket(d))
+			if r.Err == errHung {
+				acc.add(cfg, "C03", []explore.Finding{{Sig: "C03|MakeRoot-never-returns-after-a-failed-write|" + cls, What: "after a Store call failed MakeRoot did not return at all (its worker pool is deadlocked)", Detail: fmt.Sprintf("no return within %v; %d nodes to write", hangGuard, d)}}, desc)
+				return // the tree's goroutines are stuck; later results of this state would only repeat it
+			}
 			if r.Panic != nil {
 				acc.add(cfg, "C03", []explore.Finding{{Sig: "C03|panic-on-store-failure|" + resClass(r), What: "MakeRoot panicked when a write failed", Detail: r.String()}}, desc)
 				continue
@@ -140,9 +171,12 @@ func c03State(cfg *world.Config, hist []world.Op, acc *pairAcc, st *c03Stats, ma
 					return nil
 				}
 			}
-			var root2 *mast.Root
-			r2 := guardRes(func() (err error) { root2, err = t.MakeRoot(ctx); return })
+			root2, r2 := makeRootGuarded(t)
 			atomic.AddInt64(&st.retries, 1)
+			if r2.Err == errHung {
+				acc.add(cfg, "C03", []explore.Finding{{Sig: "C03|retry-never-returns|" + cls, What: "a retried MakeRoot did not return at all", Detail: fmt.Sprintf("no return within %v", hangGuard)}}, desc)
+				return
+			}
 			w.Store.Gate = nil
 			if r2.Panic != nil {
 				acc.add(cfg, "C03", []explore.Finding{{Sig: "C03|retry-panicked|" + resClass(r2), What: "retrying MakeRoot after a failed write panicked", Detail: r2.String()}}, desc)
@@ -164,8 +198,7 @@ func c03State(cfg *world.Config, hist []world.Op, acc *pairAcc, st *c03Stats, ma
 				acc.add(cfg, "C03", []explore.Finding{{Sig: "C03|retry-fails-after-fault-cleared|" + report.Norm(r2.Err.Error()), What: "MakeRoot keeps failing after the write fault has cleared", Detail: r2.Err.Error()}}, desc)
 			} else {
 				// second failure: a third, clean attempt must work
-				var root3 *mast.Root
-				r3 := guardRes(func() (err error) { root3, err = t.MakeRoot(ctx); return })
+				root3, r3 := makeRootGuarded(t)
 				if r3.Err == nil && r3.Panic == nil {
 					if err := reachCheck(cfg, w.Store, root3); err != nil {
 						acc.add(cfg, "C03", []explore.Finding{{Sig: "C03|retry-succeeded-with-nodes-missing|" + cls, What: "after failed writes, a later MakeRoot reported success although a node reachable from the returned root is not in the store", Detail: err.Error()}}, append(desc, "then MakeRoot failing again, then MakeRoot"))
